@@ -39,7 +39,8 @@ type Leaf interface {
 	Route() string
 	// Handler the Handler that is associated with the leaf.
 	Handler() Handler
-	// Static returns true if the leaf and all ancestors are static routes.
+	// Static returns true if the leaf and all ancestors are static routes, and a
+	// request path that is identical to the route can only be matched by this leaf.
 	Static() bool
 
 	// getParent returns the parent tree the leaf belongs to.
@@ -141,6 +142,23 @@ func (l *staticLeaf) match(segment string, _ Params, header http.Header) bool {
 }
 
 func (l *staticLeaf) Static() bool {
+	// The route of an optional segment is not the literal request path, it stands
+	// for two of them.
+	if l.segment.Optional {
+		return false
+	}
+
+	// A leaf that is registered earlier for the same literals, e.g. "/a/?b" before
+	// "/a/b", takes priority in the tree and possibly depends on request headers.
+	for _, leaf := range l.parent.getLeaves() {
+		if leaf == Leaf(l) {
+			break
+		}
+		if sl, ok := leaf.(*staticLeaf); ok && sl.literals == l.literals {
+			return false
+		}
+	}
+
 	ancestor := l.parent
 	for ancestor != nil {
 		if ancestor.getMatchStyle() > matchStyleStatic {
